@@ -149,14 +149,17 @@ CHECKS["C01"] = dict(
     note="transports are modelled as the identity on messages once established (trusted: kernel loopback, crypto/tls, pion/dtls); UDP <= 60000 and DTLS <= 8000 byte messages.")
 CHECKS["C18"] = dict(
     engine="tls",
-    technique="Lean 4 proof of decision logic over configurations regenerated from the source (tlsfacts) + exhaustive run of the whole configuration matrix against the real TLS/DTLS stacks; partial (library semantics assumed), one known finding",
-    text="PARTIAL by nature: the theorems (client_accepts_only_authenticated, collector_requires_client_cert, no_plaintext_path, "
-         "dtls_client_accepts_partial + dtls_name_unchecked_witness, model_satisfies_spec_off_known_cells, known_cells_fail, 12 tie lemmas) are about "
-         "the tls.Config / dtls.Config literals and Dial/Listen calls extracted from the current source by tools/tlsfacts under the documented "
-         "semantics of crypto/tls and pion/dtls; that the stacks enforce them is observed, not proved, by running all 1486 matrix cells (server cert "
-         "x ServerName x client cert x client CA x transport x peer version, plus plaintext peers) against the real code with certificates minted at "
-         "run time. The DTLS exporter performs no name check for an empty or IP ServerName (D11): those 56 cells are KNOWN-FINDING.",
-    design="4 (C18), 5 (D11)",
+    technique="Lean 4 proof of decision logic over configurations regenerated from the source (tlsfacts) + exhaustive run of the whole configuration matrix against the real TLS/DTLS stacks; partial (library semantics assumed)",
+    text="PARTIAL by nature: the theorems (client_accepts_only_authenticated for crypto/tls, dtls_client_accepts_only_authenticated for pion + the "
+         "exporter's own name check, client_accepts_only_authenticated_matrix, collector_requires_client_cert, no_plaintext_path, "
+         "model_satisfies_spec and transfer for every valid cell, the tie lemmas incl. tie_dtls_name_hook_source) are about the tls.Config / "
+         "dtls.Config literals, the VerifyPeerCertificate hook and the Dial/Listen calls extracted from the current source by tools/tlsfacts under "
+         "the documented semantics of crypto/tls and pion/dtls; that the stacks enforce them is observed, not proved, by running all 1486 matrix "
+         "cells (server cert x ServerName x client cert x client CA x transport x peer version, plus plaintext peers) against the real code with "
+         "certificates minted at run time. D11 (no name check by the DTLS exporter for an empty or IP ServerName) was repaired in /repo "
+         "(90a2eb6): dtls_name_check_restored proves the 56 former cells refused, d11_without_hook / d11_witness_without_hook show the old "
+         "failure returns if the hook is removed, dtls_valid_names_still_accepted that valid collectors are still accepted.",
+    design="4 (C18), 5 (D11 fixed)",
     note="crypto/tls, crypto/x509 and pion/dtls are trusted to enforce the configuration they are given; negotiated versions are observed only at raw peers.")
 
 CHECKS["C07"] = dict(
